@@ -38,6 +38,21 @@ func ZZ_Self_Strings() {
 	c := samples[i]
 	s := pinned("s", c)
 	zzverif.Assert(strings.ToLower(s) == strings.ToLower(c), "ToLower")
+	// interpreted library code that indexes tables with bytes (unsigned narrow indices), on
+	// concrete and on pinned-symbolic text
+	rep := strings.NewReplacer("\x1b", "", "\xc3", "C", "a", "A")
+	zzverif.Assert(rep.Replace(s) == rep.Replace(c), "Replacer-byte")
+	zzverif.Assert(rep.Replace("h\xc3\xa9llo a") == "hC\xa9llo A", "Replacer-byte-literal")
+	var table [256]int
+	for k := range table {
+		table[k] = k * 3
+	}
+	sum1, sum2 := 0, 0
+	for k := 0; k < len(s); k++ {
+		sum1 += table[s[k]]
+		sum2 += table[c[k]]
+	}
+	zzverif.Assert(sum1 == sum2, "byte-indexed-table")
 	zzverif.Assert(strings.ToUpper(s) == strings.ToUpper(c), "ToUpper")
 	zzverif.Assert(strings.TrimSpace(s) == strings.TrimSpace(c), "TrimSpace")
 	zzverif.Assert(strings.Index(s, "l") == strings.Index(c, "l"), "Index")
